@@ -83,6 +83,9 @@ class CallMixin:
         if after is not None:
             mro = mro[mro.index(after) + 1:]
         for c in mro:
+            dyn = getattr(c, "dyn_methods", None)
+            if dyn and name in dyn:
+                return dyn[name]
             if name in c.methods:
                 key = (c.qualname, name)
                 if key not in self.module_cache:
@@ -103,6 +106,8 @@ class CallMixin:
 
     @staticmethod
     def decorators(fn_node):
+        if not hasattr(fn_node, "decorator_list"):
+            return []
         return [ast.unparse(d.func if isinstance(d, ast.Call) else d) for d in fn_node.decorator_list]
 
     def is_abstract(self, fv):
@@ -882,7 +887,16 @@ class CallMixin:
         raise Unsupported(f"type() of {type(x).__name__}")
 
     def make_type(self, name, bases, ns):
-        raise Unsupported("dynamic type() creation (handled by override where needed)")
+        """type(name, bases, namespace): a dynamic subclass whose methods are the given function values"""
+        if not isinstance(ns, dict) or not all(isinstance(b, ClassRef) for b in bases):
+            raise Unsupported("dynamic type() with non-repository bases")
+        node = ast.parse(f"class _Dyn({', '.join('B%d' % i for i in range(len(bases)))}):\n    pass").body[0]
+        base0 = bases[0].ci
+        ci = ClassInfo(str(name), base0.module, node, bases=[])
+        ci.dyn_bases = [b.ci for b in bases]
+        ci.dyn_methods = {k: v for k, v in ns.items() if isinstance(v, FuncVal)}
+        self.mro_cache[ci.qualname] = [ci] + [c for b in bases for c in self.mro(b.ci)]
+        return ClassRef(ci)
 
     def bi_getattr(self, o, name, *default):
         if default:
